@@ -267,6 +267,11 @@ func (matrix *SparseReal64Matrix) T() Matrix {
 }
 func (matrix *SparseReal64Matrix) Tip() {
   mn := matrix.values.Dim()
+  if matrix.rows*matrix.cols != mn {
+    // the cycle-following permutation below assumes that the matrix
+    // owns its whole storage, on a slice it would never terminate
+    panic("Tip(): cannot transpose a slice of a larger matrix in place")
+  }
   visited := make([]bool, mn)
   k := 0
   for cycle := 1; cycle < mn; cycle++ {
